@@ -52,6 +52,7 @@ CONSTANTS
   OverwriteTags,  \* transforms whose tasks work in place on the block they are given (mutant model)
   StickyKwargs,   \* TRUE: keywords of an earlier map_blocks call leak into later Dask calls (mutant model)
   LazySetitemLost, \* TRUE: for several shifts the zeroing is assigned to a slice of the Dask array, i.e. lost (mutant model)
+  RollShortcut,   \* TRUE: the Dask path moves the blocks (da.roll) for a scalar whole-number time shift (mutant model)
   SharedHandle    \* TRUE: the reads of one reader seek / read on one shared stream handle (mutant model)
 
 VARIABLES
@@ -505,8 +506,12 @@ RunPlan(S, o, step) ==
                 w == ShiftCrop(s.sh[1], sh)
             IN IF \A j \in 1..Len(sh) : sh[j] = 0 THEN fin(S)        \* "if shifts are zero, do nothing"
                ELSE IF step = 1
-               THEN (IF Arg(o, 1) = 1 THEN two(ColRule(s, "tsh", 1, sh, "fftfreq", FALSE), "ifft")
-                     ELSE one(ColRule(s, "tsh", 1, sh, "fftfreq", FALSE), "ifft"))
+               THEN LET R0 == ColRule(s, "tsh", 1, sh, "fftfreq", FALSE)
+                        \* mutant model: no transform at all on the Dask path, the samples are only moved
+                        R == IF RollShortcut /\ Len(sh) = 1 /\ (sh[1] % 4) = 0
+                             THEN [R0 EXCEPT !.ok = TRUE, !.hl = <<>>, !.task = EwRuleK(s, "roll", sh[1], sh[1], s.meta.cls).task]
+                             ELSE R0
+                    IN IF Arg(o, 1) = 1 THEN two(R, "ifft") ELSE one(R, "ifft")
                ELSE one(SliceRule(s, 1, w[1], w[2], None, TimeSliceMeta(s, w[1], w[2], None)), "getitem")
        [] op = "freq_shift" -> one(ColRule(s, "fsh", 1, o.a, "arange", FALSE), "ifft")
        [] op = "coh_dd" ->
